@@ -31,6 +31,16 @@ theorem receiver_writes_reviewed : Generated.Effects.receiverWriteMethodNames = 
     caller-owned buffer exist; whether caller data is ever modified is what the `inputs.unmodified` / `returned.records` streams observe.) -/
 theorem param_writes_reviewed : Generated.Effects.exportedParamWrites = [] := by decide
 
+/-- a `RelyingParty` value has no member through which it could remember anything between calls: no map, channel, `sync` / `atomic`
+    value, slice of structured values, nor a struct or pointer to a struct holding one (its members are the origin, the RP ID bytes and the
+    storage the integrator supplies) — a memo of verified attestations, a cache of decoded keys or a counter would be listed here -/
+theorem relying_party_keeps_nothing : Generated.Effects.relyingPartyStatefulFields = [] := by decide
+
+/-- the data types decoded from input and handed to the caller (`AttestationObject`, `AuthenticatorData`, `AttestedCredentialData`,
+    `CollectedClientData`, `Credential`, the two responses and the two credentials) have exported members only: there is no place where a
+    decoded form could be kept beside the bytes it came from and go stale when the caller changes those -/
+theorem decoded_types_keep_nothing : Generated.Effects.unexportedFieldsInDecodedTypes = [] := by decide
+
 /-! ### the model has no hidden state -/
 
 /-- the relying party is never an output of a ceremony: outcomes are functions of the arguments (stated as congruence) -/
